@@ -8,6 +8,9 @@ git -C /repo worktree add --detach $WT HEAD >/dev/null 2>&1 || exit 3
 if ! git -C $WT apply "$P"; then echo "patch does not apply"; git -C /repo worktree remove --force $WT; exit 3; fi
 cd "$(dirname "$0")/.."
 for c in "$@"; do
+  cp evidence/$c.json /tmp/ev.$$.$c.json 2>/dev/null
   VERIF_REPO=$WT ./check $c 2>/dev/null | grep -E "VIOLATION|KNOWN|ok|FAIL" | tail -3
+  # the evidence of a run against a seeded change is not evidence about /repo: put the old file back
+  [ -f /tmp/ev.$$.$c.json ] && mv /tmp/ev.$$.$c.json evidence/$c.json
 done
 git -C /repo worktree remove --force $WT; rm -rf "$(dirname "$0")/../harness-alt"
